@@ -6,7 +6,7 @@ from typing import Dict, NoReturn, Optional, Tuple
 import logging
 
 from wheatley.aliases import CallDef, JSON
-from wheatley.bell import Bell
+from wheatley.bell import Bell, MAX_BELL
 from wheatley.row_generation import RowGenerator
 from wheatley.row_generation.place_notation_generator import PlaceNotationGenerator
 from wheatley.row_generation.complib_composition_generator import (
@@ -342,6 +342,8 @@ def parse_place_notation(input_string: str) -> Tuple[int, str]:
         except ValueError as e:
             # `isnumeric` accepts characters (e.g. superscripts, fractions) that `int` does not
             raise PlaceNotationError(input_string, "Stage must be a number") from e
+        if not 0 < stage <= MAX_BELL:
+            raise PlaceNotationError(input_string, f"Stage must be between 1 and {MAX_BELL}")
         place_notation = parts[1]
         if not valid_pn(place_notation):
             raise PlaceNotationError(input_string, "Place notation is invalid")
